@@ -94,7 +94,7 @@ pub fn obs_matches(want: &Value, got: &Value) -> bool {
     w == g
 }
 
-fn obs_core(o: &Value) -> Value {
+pub fn obs_core(o: &Value) -> Value {
     json!({"outcome": o["outcome"], "kind": o["kind"], "stderr": o["stderr"], "exit": o["exit"], "chain": o["chain"]})
 }
 
